@@ -1773,8 +1773,14 @@ public:
     }
     
     if (!m_is_bottom && ref_cst.is_equality()) {
-      auto size_lin_csts =
-	convert_ref_cst_to_linear_cst(ref_cst, ghost_variable_kind::SIZE);
+      // p == q + k means that p and q point to the same memory
+      // object so their sizes are equal: the offset k only relates
+      // the addresses and the offsets.
+      auto size_lin_csts = convert_ref_cst_to_linear_cst(
+          ref_cst.is_binary()
+              ? reference_constraint_t::mk_eq(ref_cst.lhs(), ref_cst.rhs())
+              : ref_cst,
+          ghost_variable_kind::SIZE);
       m_base_dom += size_lin_csts;
       m_is_bottom = m_base_dom.is_bottom();
     } 
